@@ -266,6 +266,8 @@ type job struct {
 	HashOut  string  `json:"hash_out"`
 	TreeHash string  `json:"tree_hash"`
 	Sub      string  `json:"sub"`
+	Start    int     `json:"start"`
+	MaxRSSMB int     `json:"max_rss_mb"`
 }
 
 // runWorker starts one worker process and returns its result.
@@ -394,15 +396,35 @@ func check(id, tier string, seed uint64, cases int, budget float64, workers int)
 			wg.Add(1)
 			go func(w int) {
 				defer wg.Done()
-				j := job{Property: id, Tier: tier, Mode: "explore", Seed: seed, Worker: w, Workers: nw, Cases: cs, BudgetS: bud, TreeHash: th,
-					HashOut: filepath.Join(b.tmp, fmt.Sprintf("hash-%s-%d.bin", tag, w))}
-				if race {
-					j.Sub = "race"
+				// a worker whose resident size grows too much (runs that leave blocked
+				// goroutines behind) stops and is restarted where it was
+				deadline := time.Now().Add(time.Duration(bud * float64(time.Second)))
+				start := 0
+				for round := 0; round < 200; round++ {
+					left := time.Until(deadline).Seconds()
+					if left < 1 {
+						break
+					}
+					rtag := fmt.Sprintf("%s-r%d", tag, round)
+					j := job{Property: id, Tier: tier, Mode: "explore", Seed: seed, Worker: w, Workers: nw, Cases: cs, BudgetS: left, TreeHash: th, Start: start,
+						HashOut: filepath.Join(b.tmp, fmt.Sprintf("hash-%s-%d.bin", rtag, w))}
+					if race {
+						j.Sub = "race"
+					}
+					r, out, err := runWorker(bin, j, gmp[w%3], b.tmp, rtag)
+					mu.Lock()
+					results = append(results, wr{r, out, err, race})
+					mu.Unlock()
+					if err != nil || r == nil {
+						break
+					}
+					rf, ok := r.Extra["resume_from"].(float64)
+					if !ok {
+						break
+					}
+					start = int(rf)
+					delete(r.Extra, "resume_from")
 				}
-				r, out, err := runWorker(bin, j, gmp[w%3], b.tmp, tag)
-				mu.Lock()
-				results = append(results, wr{r, out, err, race})
-				mu.Unlock()
 			}(w)
 		}
 	}
@@ -587,7 +609,8 @@ func check(id, tier string, seed uint64, cases int, budget float64, workers int)
 			"real": []string{"github.com/traefik/yaegi/interp (current working tree, woven through go build -overlay)", "github.com/traefik/yaegi/stdlib", "Go runtime, reflect, context, channels, sync.WaitGroup"},
 			"stub": []string{"sync.Mutex/RWMutex as seen by scripts: real mutex acquired by TryLock + cooperative yield", "time: testing/synctest fake clock", "script stdout/stderr: discarded or in-memory buffer", "goroutine choice: the simulator's seeded scheduler instead of the Go scheduler"},
 		},
-		"workers":     len(results),
+		"workers":     workers,
+		"worker_processes": len(results),
 		"gomaxprocs":  gmp,
 		"tree_hash":   th,
 		"race_runs":   raceRuns,
